@@ -205,6 +205,12 @@ func (s *serverStream) SetHeader(md metadata.MD) error {
 }
 
 func (s *serverStream) SendHeader(md metadata.MD) error {
+	if err := s.ctx.Err(); err != nil {
+		// like gRPC, nothing can be sent any more once the call has ended for the client (it cancelled, or its
+		// deadline passed): headers that were only staged by then never reach it, neither through a late
+		// SendHeader / SendMsg nor through the flush in Close when the handler returns
+		return status.FromContextError(err).Err()
+	}
 	s.headerM.Lock()
 	defer s.headerM.Unlock()
 
@@ -212,12 +218,6 @@ func (s *serverStream) SendHeader(md metadata.MD) error {
 	case <-s.headerC:
 		return errors.New("headers already sent")
 	default:
-	}
-	if err := s.ctx.Err(); err != nil {
-		// like gRPC, nothing can be sent any more once the call has ended for the client (it cancelled, or its
-		// deadline passed): headers that were only staged by then never reach it, neither through a late
-		// SendHeader / SendMsg nor through the flush in Close when the handler returns
-		return status.FromContextError(err).Err()
 	}
 	s.header = metadata.Join(s.header, md)
 	close(s.headerC)
